@@ -148,6 +148,20 @@ class TimedCacheManager(CacheManager):
         self._time_added.append((ident, time.time()))
         self.gc()
 
+    def join(self, cache_objects):
+        """join
+
+        Entries computed by pool workers get their time stamp when they
+        arrive, so that they expire like locally added entries.
+
+        :param cache_objects:
+            Objects obtained with :func:`CacheManager.get_not_in()`.
+        """
+        super().join(cache_objects)
+        now = time.time()
+        self._time_added += [(ident, now) for ident in cache_objects]
+        self.gc()
+
     def clone_contains(self, filter_id):
         """Clone the timed cache manager and add a subset of the cache to it.
 
